@@ -6,6 +6,9 @@ Engine E1.  Spaces:
               (xrmc/oracles/terrain_ops.py) x cell size x cell-size route x dtype.  A stencil wider than 3x3 would
               read the neighbouring tile (a different window) and break the comparison.
   hill_*      the same packing for hillshade x azimuth x altitude.
+  scaled_4L   the magnitude dimension: every window of {0,1,2,NaN} multiplied by a vertical scale in {1e-9, 1e-6, 1e3}
+              (float64 / float32 rasters; int32 for 1e3), same packing, tolerances and tie threshold RELATIVE to the
+              scale: a tilted window keeps its aspect and a slope > 0 however small its elevations are.
   single_*    every window called on its own as a 3x3 raster (the smallest raster with an interior cell).
   locality    two generic 6x7 rasters x cell x replacement {NaN, +5, inf}: output unchanged outside the 3x3 neighbourhood.
   offset      integer-valued rasters + constant: bit-identical outputs.
@@ -46,10 +49,18 @@ ASSUMPTIONS = [
     "use rtol 1e-5 / atol 1e-5 (kernels store float32, oracle is float64)",
     "tie rule: the flat / non-flat decision of aspect is not asserted when the oracle's gradient magnitude is in "
     "(0, 1e-6) -- cannot occur on the integer alphabets, where 0 == 0 is exact on both sides and is asserted",
+    "scaled_4L (elevations s*{0,1,2,NaN}, s in {1e-9,1e-6,1e3}): the oracle is evaluated in float64 on the "
+    "float32-rounded elevations f32(s)*{0,1,2} (multiplying by 1 or 2 is exact, so every Horn sum is an exact float64 "
+    "multiple of f32(s)/8 and a zero gradient is the exact value of the formula, asserted as aspect -1); the aspect "
+    "tie threshold is relative there: gradient magnitude in (0, 16 * 2^-23 * max|z| of the window) -- a few float32 "
+    "ulps of the elevations, never reached by these alphabets (smallest non-zero gradient >= max|z|/24); slope is "
+    "compared with rtol 1e-5 + atol 1e-5*min(1,s) (the absolute term shrinks with the scale, otherwise every output "
+    "at s = 1e-9 would pass), curvature with rtol 1e-5 + 1e-4*max|z|/cellsize^2 (float32 neighbour sums), aspect "
+    "and hillshade (scale-free outputs) as everywhere else",
     "cell size given both ways at once (res attr AND coordinates that disagree) is not generated; res is a tuple of "
     "Python floats; coordinates are evenly spaced (dyadic steps), y ascending or descending, x ascending",
-    "elevations beyond the alphabets {0,1,2,NaN}, {0,1,7,1e6,-3}, {0,1,NaN} and the generic 6x7 rasters are not "
-    "explored; +-inf elevations only as a locality perturbation (no formula / range assertion on outputs computed "
+    "elevations beyond the alphabets {0,1,2,NaN} (x vertical scales 1, 1e-9, 1e-6, 1e3), {0,1,7,1e6,-3}, {0,1,NaN} "
+    "and the generic 6x7 rasters are not explored; +-inf elevations only as a locality perturbation (no formula / range assertion on outputs computed "
     "from inf)",
     "offset invariance is asserted bit-identically and therefore only on integer-valued rasters whose sums stay below "
     "2^24 (every intermediate is then exact in float32 as well as in float64)",
@@ -66,6 +77,8 @@ NAN, INF = float("nan"), float("inf")
 RTOL, ATOL = 1e-5, 1e-5
 ASPECT_TOL = 1e-4
 GRAD_EPS = 1e-6
+EPS32 = 2.0 ** -23
+REL_GRAD_EPS = 16 * EPS32    # scaled windows: tie when 0 < |gradient| < REL_GRAD_EPS * max|z| of the window
 MAX_ITEMISED = 200           # violations written out per run() call; the rest are only counted
 
 ALPHABETS = {"4L": (0.0, 1.0, 2.0, NAN), "5L": (0.0, 1.0, 7.0, 1e6, -3.0), "3L": (0.0, 1.0, NAN)}
@@ -88,11 +101,19 @@ SINGLE3_THOROUGH = ([(c, "res", d) for d in DTYPES for c in CELLS]
                     + [((1.0, 1.0), "coords", "f8"), ((0.5, 2.0), "coords_ydesc", "f8"), ((3.0, 3.0), "coords", "f8"),
                        SINGLE_QUICK[1]])
 SINGLE4_THOROUGH = [((1.0, 1.0), "res", "f8"), ((0.5, 2.0), "res", "f4")]
+SCALES = (1e-9, 1e-6, 1e3)
+SCALE_GEOMS = (((1.0, 1.0), "res"), ((0.5, 2.0), "coords_ydesc"))
+# (cell, route, dtype, scale): float64 and float32 at every scale, int32 where the scaled letters are integers
+SCALED_QUICK = ([(c, r, d, s) for s in SCALES for d in ("f8", "f4") for c, r in SCALE_GEOMS]
+                + [((3.0, 3.0), "coords", "i4", 1e3)])
+SCALED_THOROUGH = ([(c, r, d, s) for s in SCALES for d in ("f8", "f4") for c in CELLS for r in ROUTES]
+                   + [(c, r, "i4", 1e3) for c in CELLS for r in ROUTES])
 PLAN = {
     "quick": dict(tiles_4L=ALL_CFGS, tiles_5L=DIAG_CFGS, single_3L=SINGLE_QUICK, single_4L=None,
-                  hill_4L=["f8"], hill_5L=None, locality_shapes=[(6, 7)]),
+                  hill_4L=["f8"], hill_5L=None, locality_shapes=[(6, 7)], scaled_4L=SCALED_QUICK),
     "thorough": dict(tiles_4L=ALL_CFGS, tiles_5L=ALL_CFGS, single_3L=SINGLE3_THOROUGH, single_4L=SINGLE4_THOROUGH,
-                     hill_4L=["f8", "f4", "i4"], hill_5L=["f8"], locality_shapes=[(6, 7), (5, 9)]),
+                     hill_4L=["f8", "f4", "i4"], hill_5L=["f8"], locality_shapes=[(6, 7), (5, 9)],
+                     scaled_4L=SCALED_THOROUGH),
 }
 
 
@@ -105,6 +126,7 @@ BOUNDS = {t: dict(
     int32_letters="NaN is replaced by (largest letter + 1) when the dtype is int32",
     tiles_4L=_cfg_json(p["tiles_4L"]), tiles_5L=_cfg_json(p["tiles_5L"]),
     single_3L=_cfg_json(p["single_3L"]), single_4L=_cfg_json(p["single_4L"]),
+    scaled_4L=[dict(cellsize=list(c), route=r, dtype=d, vertical_scale=sc) for c, r, d, sc in p["scaled_4L"]],
     hillshade=dict(azimuth=list(AZIMUTHS), altitude=list(ALTITUDES), dtypes_4L=p["hill_4L"], dtypes_5L=p["hill_5L"],
                    cellsize=[1.0, 1.0]),
     locality=dict(rasters="generic variants 0,1", shapes=[list(s) for s in p["locality_shapes"]],
@@ -211,9 +233,11 @@ def expected(op, wins, cell, angle=DEFAULT_ANGLE):
     return T.hillshade(wins, angle[0], angle[1]), None
 
 
-def agree(op, o, e, mag=None, extra=0.0):
+def agree(op, o, e, mag=None, extra=0.0, atol=ATOL, grad_eps=GRAD_EPS):
     """Elementwise -> (ok mask, tie mask).  NaN must match NaN; aspect: -1 must match -1, bearings modulo 360.
-    `extra` widens the absolute tolerance (conditioning of a difference of float32 sums, see LocalitySpace)."""
+    `extra` widens the absolute tolerance (conditioning of a difference of float32 sums, see LocalitySpace);
+    `atol` / `grad_eps` (scalar or per element) replace the absolute tolerance / the aspect tie threshold where the
+    elevations carry a vertical scale (see TileSpace)."""
     o = np.asarray(o, dtype=np.float64)
     e = np.asarray(e, dtype=np.float64)
     on, en = np.isnan(o), np.isnan(e)
@@ -221,9 +245,9 @@ def agree(op, o, e, mag=None, extra=0.0):
         if op == "aspect":
             flat = e == -1.0
             ok = np.where(flat, o == -1.0, (o >= 0.0) & (T.circular_diff(o, e) <= ASPECT_TOL))
-            tie = (mag > 0.0) & (mag < GRAD_EPS) if mag is not None else np.zeros(o.shape, bool)
+            tie = (mag > 0.0) & (mag < grad_eps) if mag is not None else np.zeros(o.shape, bool)
         else:
-            ok = np.abs(o - e) <= ATOL + extra + RTOL * np.abs(e)
+            ok = np.abs(o - e) <= atol + extra + RTOL * np.abs(e)
             tie = np.zeros(o.shape, bool)
     ok = np.where(on | en, on & en, ok)
     return ok | tie, tie
@@ -304,9 +328,12 @@ def audit(rep, rank, tag, arr, op, o):
 # (a), (e): all windows, packed as tiles
 # ------------------------------------------------------------------------------------------------------------------
 class TileSpace(Space):
-    """cfgs: list of (cell, route, dtype, angle); ops asserted per case."""
+    """cfgs: list of (cell, route, dtype, angle[, vertical scale]); ops asserted per case.  With a vertical scale s != 1
+    every letter is multiplied by s before the raster is built (as float64, then cast to the dtype) and the oracle is
+    evaluated on the float32-rounded elevations with scale-relative tolerances / tie threshold."""
 
     def __init__(self, name, alpha, cfgs, ops, shards=96):
+        cfgs = [tuple(c) + (1.0,) * (5 - len(c)) for c in cfgs]
         self.name, self.alpha, self.alphabet, self.cfgs, self.ops = name, alpha, ALPHABETS[alpha], cfgs, ops
         self.n = len(self.alphabet)
         self.NW, self.B = self.n ** 9, self.n ** 5
@@ -322,14 +349,27 @@ class TileSpace(Space):
         ci, widx = divmod(rank, self.NW)
         return self.cfgs[ci], widx
 
-    def describe(self, rank):
-        (cell, route, dt, angle), widx = self.locate(rank)
-        b, t = divmod(widx, self.B)
-        return {"window": block_windows(self.alphabet, dt, b)[t], "cellsize": cell, "route": route, "dtype": dt,
-                "azimuth_altitude": angle, "packed_block": b, "tile": [t // self.n ** 3, t % self.n ** 3]}
+    def scaled_windows(self, dt, b, scale):
+        """-> (windows exactly as the raster holds them, windows as the oracle sees them), float64 (L^5, 3, 3)."""
+        wins = block_windows(self.alphabet, dt, b)
+        if scale == 1.0:
+            return wins, wins
+        wins = (wins * scale).astype(dt).astype(np.float64)
+        return wins, f32(wins)
 
-    def key(self, op, w, cell, route, dt, angle):
+    def describe(self, rank):
+        (cell, route, dt, angle, scale), widx = self.locate(rank)
+        b, t = divmod(widx, self.B)
+        d = {"window": self.scaled_windows(dt, b, scale)[0][t], "cellsize": cell, "route": route, "dtype": dt,
+             "azimuth_altitude": angle, "packed_block": b, "tile": [t // self.n ** 3, t % self.n ** 3]}
+        if scale != 1.0:
+            d["vertical_scale"] = scale
+        return d
+
+    def key(self, op, w, cell, route, dt, angle, scale=1.0):
         k = "C08|%s|%s|win=%s|%s" % (self.name, op, window_literal(w), cfg_str(cell, route, dt))
+        if scale != 1.0:
+            k += "|scale=%r" % scale
         return k + "|az=%d|alt=%d" % angle if op == "hillshade" and angle != DEFAULT_ANGLE else k
 
     def run(self, lo, hi, out):
@@ -340,12 +380,19 @@ class TileSpace(Space):
 
     def block(self, out, rep, blk, s0, s1):
         B, n = self.B, self.n
-        (cell, route, dt, angle), w0 = self.locate(blk * B)
+        (cell, route, dt, angle, scale), w0 = self.locate(blk * B)
         b = w0 // B
-        wins = block_windows(self.alphabet, dt, b)
+        wins, owins = self.scaled_windows(dt, b, scale)      # raster values / what the oracle is evaluated on
         arr = pack(wins, n, dt)
         r = self.I.raster(arr, cell, route)
         tag = "%s#%d|%s" % (self.alpha, b, cfg_str(cell, route, dt))
+        tol = {}
+        if scale != 1.0:
+            tag += "|scale=%r" % scale
+            zmax = np.nan_to_num(np.abs(owins)).reshape(B, 9).max(axis=1)      # per window, NaN cells ignored
+            tol = dict(slope=dict(atol=ATOL * min(1.0, scale)),
+                       aspect=dict(grad_eps=REL_GRAD_EPS * zmax),
+                       curvature=dict(atol=0.0, extra=1e-4 * zmax / ((cell[0] + cell[1]) / 2.0) ** 2))
         sel = slice(s0, s1)
         rank0 = blk * B
         nonnan = ~np.isnan(wins.reshape(B, 9))
@@ -363,8 +410,8 @@ class TileSpace(Space):
                 cols.append(np.zeros(B))
                 continue
             c = np.asarray(o[1::3, 1::3], dtype=np.float64).ravel()
-            e, mag = expected(op, wins, cell, angle)
-            ok, tie = agree(op, c, e, mag)
+            e, mag = expected(op, owins, cell, angle)
+            ok, tie = agree(op, c, e, mag, **tol.get(op, {}))
             if op != "hillshade":                      # flat window => slope 0 / aspect -1 / curvature 0 exactly
                 ok = ok & ~(flat & (c != (-1.0 if op == "aspect" else 0.0)))
             cols.append(c)
@@ -377,7 +424,7 @@ class TileSpace(Space):
                 out.count("aspect_flat_windows", int((e[sel] == -1.0).sum()))
             for t in np.nonzero(~ok[sel])[0] + s0:
                 t = int(t)
-                rep.violation(rank0 + t, self.key(op, wins[t], cell, route, dt, angle),
+                rep.violation(rank0 + t, self.key(op, wins[t], cell, route, dt, angle, scale),
                               "%s at the centre of window %s (%s%s) = %r, documented formula gives %r"
                               % (op, window_literal(wins[t]), cfg_str(cell, route, dt),
                                  ", az=%d alt=%d" % angle if op == "hillshade" else "", float(c[t]), float(e[t])),
@@ -390,7 +437,7 @@ class TileSpace(Space):
         out.count("nan_containing_windows", int((~nonnan.all(axis=1))[sel].sum()))
         if out.want_sample():
             t = s0 + (s1 - s0) // 2
-            out.sample({"window": wins[t], "cellsize": cell, "route": route, "dtype": dt, "angle": angle,
+            out.sample({"window": wins[t], "cellsize": cell, "route": route, "dtype": dt, "angle": angle, "scale": scale,
                         "outputs": {op: float(cols[i][t]) for i, op in enumerate(self.ops)}})
 
 
@@ -792,5 +839,6 @@ def build(tier):
     if p["hill_5L"]:
         spaces.append(TileSpace("hill_5L", "5L", [((1.0, 1.0), "res", dt, ang) for dt in p["hill_5L"] for ang in ANGLES],
                                 ("hillshade",), shards=400))
+    spaces.append(TileSpace("scaled_4L", "4L", [(c, r, d, DEFAULT_ANGLE, sc) for c, r, d, sc in p["scaled_4L"]], OPS))
     spaces += [LocalitySpace(p["locality_shapes"]), OffsetSpace(), Rot90Space(), SummarizeSpace()]
     return spaces
